@@ -52,7 +52,10 @@ source_for(const std::string &profile, const std::string &prop, int tier)
         if (profile == "keyprep")
                 s.make = [pc](uint64_t run_seed, uint64_t) { return gen_plan_keyprep(pc, run_seed); };
         if (profile == "sgl")
-                s.make = [pc](uint64_t run_seed, uint64_t) { return gen_plan_sgl(pc, run_seed); };
+                s.make = [pc](uint64_t run_seed, uint64_t idx) {
+                        // every other run takes a seeded cell of the table of all 2-cut partitions of short messages (12 cut pairs per run)
+                        return (idx & 1) ? gen_plan_sgl_enum(pc, run_seed, mix64(run_seed, 0xC10)) : gen_plan_sgl(pc, run_seed);
+                };
 
         if (profile == "indep") {
                 // C17: each task's history must equal the history of the same task run alone
